@@ -53,11 +53,27 @@ func (s *SCEVAddRec) IsLoopInvariant(loop *Loop) bool {
 	return s.Start.IsLoopInvariant(loop) && s.Step.IsLoopInvariant(loop)
 }
 func (s *SCEVAddRec) String() string {
-	return fmt.Sprintf("{%s, +, %s}", s.Start.String(), s.Step.String())
+	return fmt.Sprintf("{%s, +, %s}%s", s.Start.String(), s.Step.String(), loopTag(s.Loop))
 }
 func (s *SCEVAddRec) StringWithRenamer(r Renamer) string {
-	return fmt.Sprintf("{%s, +, %s}", s.Start.StringWithRenamer(r), s.Step.StringWithRenamer(r))
+	return fmt.Sprintf("{%s, +, %s}%s", s.Start.StringWithRenamer(r), s.Step.StringWithRenamer(r), loopTag(s.Loop))
 }
+
+// loopTag identifies the loop a recurrence belongs to by its nesting depth. Without it the
+// induction variables of an outer and an inner loop that both count {0, +, 1} are the same
+// operand, and i*10+j cannot be told from j*10+i. Within one expression only the loops that
+// enclose it can occur, and these have distinct depths.
+func loopTag(l *Loop) string {
+	if l == nil {
+		return ""
+	}
+	depth := 0
+	for p := l.Parent; p != nil && depth < 1<<16; p = p.Parent {
+		depth++
+	}
+	return fmt.Sprintf("<L%d>", depth)
+}
+
 func (s *SCEVAddRec) Name() string                  { return "scev_addrec" }
 func (s *SCEVAddRec) Type() types.Type              { return types.Typ[types.Int] }
 func (s *SCEVAddRec) Parent() *ssa.Function         { return nil }
